@@ -81,7 +81,7 @@ def main():
         module_name=args.module_name,
         use_boost_serialization=args.use_boost_serialization,
         top_module_namespaces=top_module_namespaces,
-        ignore_classes=args.ignore,
+        ignore_classes=args.ignore or [],
         module_template=template_content,
         xml_source=args.xml_source,
     )
